@@ -6,10 +6,18 @@ use vharness::wasmgen::*;
 use vharness::*;
 use wirm::iterator::iterator_trait::{IteratingInstrumenter, Iterator};
 use wirm::iterator::module_iterator::ModuleIterator;
-use wirm::opcode::{Inject, Instrumenter};
+use wirm::ir::id::FunctionID;
+use wirm::ir::types::Location;
+use wirm::opcode::{Inject, InjectAt, Instrumenter};
 use wirm::Module;
 
-struct SCase { nres: u32, nlocals: u32, body: Vec<Op>, plan: Plan, entry: Vec<Op>, exit: Vec<Op> }
+// the public API path the whole plan of one case goes through (same four paths and codes as the lowering engine;
+// the mirror's [apply_plan] takes the code): a special-mode probe must not depend on the path it came in by
+#[derive(Clone, Copy, Debug, PartialEq)]
+enum Path { Iter, IterInjectAt, ModInject, ModInjectAt }
+impl Path { fn code(&self) -> u32 { match self { Path::Iter => 0, Path::IterInjectAt => 1, Path::ModInject => 2, Path::ModInjectAt => 3 } } }
+
+struct SCase { nres: u32, nlocals: u32, body: Vec<Op>, plan: Plan, entry: Vec<Op>, exit: Vec<Op>, path: Path }
 
 fn build(c: &SCase) -> Vec<u8> {
     use wasm_encoder as we;
@@ -55,7 +63,7 @@ fn gen(r: &mut Rng, prop: &str) -> (SCase, Vec<u8>) {
         g.out.push(Op::End);
         let body = g.out.clone();
         let nlocals = g.next_local - 2;
-        let mut c = SCase { nres, nlocals, body, plan: vec![], entry: vec![], exit: vec![] };
+        let mut c = SCase { nres, nlocals, body, plan: vec![], entry: vec![], exit: vec![], path: Path::Iter };
         let bytes = build(&c);
         if !validates(&bytes) { continue; }
         let mut pid = 1000;
@@ -103,8 +111,11 @@ fn gen(r: &mut Rng, prop: &str) -> (SCase, Vec<u8>) {
             // block / loop / if / else (not on branches: those are C20's, with its known classes)
             let sites: Vec<usize> = (0..c.body.len()).filter(|i| c.body[*i].is_blockish()).collect();
             if !sites.is_empty() {
+                // half of the time on a construct that already carries an entry / exit probe (they share the tables of
+                // pending probes, keyed by the construct's block id)
+                let probed: Vec<usize> = c.plan.iter().filter(|(_, m, _)| matches!(m, Mode::BlockEntry | Mode::BlockExit)).map(|(i, _, _)| *i).collect();
                 for _ in 0..1 + r.below(2) {
-                    let idx = *r.pick(&sites);
+                    let idx = if !probed.is_empty() && r.chance(1, 2) { *r.pick(&probed) } else { *r.pick(&sites) };
                     pid += 1;
                     c.plan.push((idx, Mode::SemanticAfter, vec![Op::Const(pid), Op::Other(T_LOG)]));
                 }
@@ -117,6 +128,7 @@ fn gen(r: &mut Rng, prop: &str) -> (SCase, Vec<u8>) {
             if both != 0 { c.exit = vec![Op::Const(600), Op::Other(T_LOG)]; }
         }
         if prop != "C16" && prop != "C17" && !c.plan.iter().any(|(_, m, _)| m.is_special()) { continue; }
+        c.path = match r.below(8) { 0 => Path::ModInject, 1 | 2 => Path::ModInjectAt, 3 => Path::IterInjectAt, _ => Path::Iter };
         return (c, bytes);
     }
 }
@@ -133,10 +145,28 @@ fn main() {
         let res = catch_unwind(AssertUnwindSafe(|| {
             let mut module = Module::parse(&bytes, false).expect("parse");
             for (i, mode, ops) in c.plan.iter() {
-                let mut it = ModuleIterator::new(&mut module, &vec![]);
-                for _ in 0..*i { it.next(); }
-                it.set_instrument_mode(mode.im());
-                for op in ops { it.inject(op.wp()); }
+                let loc = Location::Module { func_idx: FunctionID(1), instr_idx: *i };
+                match c.path {
+                    Path::Iter => {
+                        let mut it = ModuleIterator::new(&mut module, &vec![]);
+                        for _ in 0..*i { it.next(); }
+                        it.set_instrument_mode(mode.im());
+                        for op in ops { it.inject(op.wp()); }
+                    }
+                    Path::IterInjectAt => {
+                        let mut it = ModuleIterator::new(&mut module, &vec![]);
+                        for op in ops { it.inject_at(*i, mode.im(), op.wp()); }
+                    }
+                    Path::ModInject => {
+                        let mut fm = module.functions.get_fn_modifier(FunctionID(1)).unwrap();
+                        fm.set_instrument_mode_at(mode.im(), loc);
+                        for op in ops { fm.inject(op.wp()); }
+                    }
+                    Path::ModInjectAt => {
+                        let mut fm = module.functions.get_fn_modifier(FunctionID(1)).unwrap();
+                        for op in ops { fm.inject_at(*i, mode.im(), op.wp()); }
+                    }
+                }
             }
             if !c.entry.is_empty() || !c.exit.is_empty() {
                 let mut it = ModuleIterator::new(&mut module, &vec![]);
@@ -154,16 +184,16 @@ fn main() {
         let obs_s = match &obs { None => "None".into(), Some((b, g)) => format!("(Some ({}, {}))", coq_ops(b), coq_groups(g)) };
         // lcase: nparams numlocals groups entry exit exit_ty body plan path skipped obs obs2_same bugs
         let coq = format!(
-            "mkS (mkCase 2 {} [({}, 0)] {} {} 2 {} {} 0 false {} true 0) {}%nat {} [{}]",
-            c.nlocals, c.nlocals, coq_ops(&c.entry), coq_ops(&c.exit), coq_ops(&c.body), coq_plan(&c.plan), obs_s,
+            "mkS (mkCase 2 {} [({}, 0)] {} {} 2 {} {} {} false {} true 0) {}%nat {} [{}]",
+            c.nlocals, c.nlocals, coq_ops(&c.entry), coq_ops(&c.exit), coq_ops(&c.body), coq_plan(&c.plan), c.path.code(), obs_s,
             c.nres, coq_bool(valid), argv.join("; ")
         );
         let desc = format!(
-            "nres={} nlocals={} body=[{}] plan=[{}] entry=[{}] exit=[{}] args={} => {} valid={}",
-            c.nres, c.nlocals, show_ops(&c.body), show_plan(&c.plan), show_ops(&c.entry), show_ops(&c.exit), argv.join(" "),
+            "nres={} nlocals={} path={:?} body=[{}] plan=[{}] entry=[{}] exit=[{}] args={} => {} valid={}",
+            c.nres, c.nlocals, c.path, show_ops(&c.body), show_plan(&c.plan), show_ops(&c.entry), show_ops(&c.exit), argv.join(" "),
             match &obs { None => "PANIC".to_string(), Some((b, _)) => format!("body=[{}]", show_ops(b)) }, valid
         );
-        let mut tags = vec![format!("plan_len={}", c.plan.len()), format!("valid_out={}", valid), format!("body_len_bucket={}", c.body.len() / 10 * 10)];
+        let mut tags = vec![format!("path={:?}", c.path), format!("plan_len={}", c.plan.len()), format!("valid_out={}", valid), format!("body_len_bucket={}", c.body.len() / 10 * 10)];
         for (_, m, _) in &c.plan { tags.push(format!("mode={:?}", m)); }
         for (i, m, _) in &c.plan { if *m == Mode::SemanticAfter && c.body[*i].is_branchy() { tags.push("sa_on_branch".into()); } }
         if c.body.iter().any(|o| matches!(o, Op::Loop(_))) { tags.push("has_loop".into()); }
